@@ -230,7 +230,10 @@ package terminal
 //@   ensures 0 <= size && size <= len(s)
 //@   assigns nothing
 
-//@ -- the custom reader handed to Reader.Readf: returns the unquoted bytes and how many input bytes they stand for
+//@ -- the text the escapes decoded so far stand for: the UTF-8 encodings of their code points, in order (C08)
+//@ ghost GhostUnq string
+//@ -- the custom reader handed to Reader.Readf: returns the unquoted bytes and how many input bytes they stand for;
+//@ -- the bytes are the literal prefix followed by the code points of the escapes ([codepoints], loop invariant)
 //@ func unquoteString(b []byte) (v []byte, n int)
 //@   requires len(b) >= 1
 //@   ensures  [zero] n == 0 ==> v == nil
@@ -238,8 +241,11 @@ package terminal
 //@   assigns  nothing
 //@ loop 1 (i int)
 //@   invariant 0 <= i && i <= len(b)
+//@   ghost_entry GhostUnq = ""
+//@   ghost_at call#2 when lastres[error](3) == nil :: GhostUnq = GhostUnq + string(lastres[rune](0))
 //@ loop 2 (str string, res []byte, i int)
 //@   invariant 0 <= i && i <= len(b) && len(str) <= len(b) - i && len(res) <= len(b) - len(str) && fresh(res)
+//@   invariant [codepoints;C08] strof(res) == strof(b[0:i]) + GhostUnq
 
 //@ closure String$1(ctx *parsley.Context, lrc data.IntMap, pos parsley.Pos) (n parsley.Node, cp data.IntSet, err parsley.Error)
 //@   captures (allowBackquote bool, notFoundErr parsley.NotFoundError, schema interface{})
